@@ -257,7 +257,7 @@ Call(fv, a, s) ==
     IF fv[1] = "bi" THEN
         CASE fv[2] = "map" ->
                IF Len(a) # 2 THEN Res("undef", "map-arity", s)
-               ELSE IF a[2] = Nil THEN Val(Nil, s)
+               ELSE IF a[2] = Nil THEN Res("undef", "map-over-nil", s)   \* the interpreter refuses nil although nil is the empty list
                ELSE IF a[2][1] \notin {"list", "arr"} THEN ErrR("type", s)
                ELSE IF a[1][1] \notin {"clo", "bi"} THEN ErrR("type", s)
                ELSE MapOver(a[1], a[2], 1, <<>>, s)
